@@ -126,7 +126,7 @@ def unit_body(pos, form="plain", ctx=None, leaf_module="main"):
         eps = [{"id": "tag:C", "kind": "body_tag", "n": 2}]
     elif pos == "hof":
         extra = [{"name": "h1", "module": leaf_module, "params": [], "body": []}]
-        core = [{"k": "hof", "fn": "h1"}]
+        core = [{"k": "hof", "fn": "h1", "form": form if leaf_module != "main" else "from"}]
         if ctx:
             core[0]["ctx"] = ctx
         eps = [{"id": "tag:h1", "kind": "body_tag", "n": 2}]
@@ -424,6 +424,9 @@ def unit_programs(level="quick"):
         out.append(unit_var_ctx(ctx, "from"))
     for form in ("from", "attr", "alias"):
         out.append(unit_body("method", form=form, leaf_module="lib"))
+    for form in ("attr", "alias", "import_as"):
+        # the function handed to a higher-order helper lives in another module and is named through it: call0(m_lib.h1)
+        out.append(unit_body("hof", form=form, leaf_module="lib"))
     out += [unit_arg("lit_kw_into_varkw"), unit_arg("lit_pos_into_varargs")]
     for kind in ("lit_pos", "lit_kw", "lit_pos2", "lit_kw2", "default", "rt_local_const"):
         for ty in LIT:
